@@ -37,6 +37,10 @@ pub enum Form {
     Serde,
     /// write_graph / read_graph
     File(Fault),
+    /// a history of write_graph calls into one directory (`Sc::more`: further diagrams and the file
+    /// names they go to; names share stems and extensions, and a name may be written twice), then
+    /// every file is read back: each must hold the diagram written to it last
+    FileMulti,
 }
 
 #[derive(Clone, Debug, Serialize, Deserialize, PartialEq)]
@@ -49,9 +53,18 @@ pub struct Sc {
     /// file of garbage, 2 a longer valid qgraph file (of another diagram)
     #[serde(default)]
     pub pre: u8,
+    /// FileMulti: the file name of `g` comes first, then (diagram, file name) of the later writes
+    #[serde(default)]
+    pub more: Vec<(GSpec, String)>,
+    #[serde(default)]
+    pub first_name: String,
 }
 
 pub struct C13;
+
+/// File names for the multi-file histories: same stem with other extensions, the scratch names a
+/// write-to-temporary-then-rename implementation might choose, a backup name, another stem.
+const NAMES: &[&str] = &["g.qgraph", "g.json", "g.tmp", "g", "g.0", "g.1", "g.qgraph.tmp", "g.qgraph.bak", ".g.qgraph.tmp", "g.tmp.qgraph", "h.qgraph", "g.qgraph~", "g.new", "tmp"];
 
 fn phase_close(a: &DV, b: &DV) -> bool {
     // exact equality modulo 2 of a.num/a.den and b.num/b.den
@@ -269,6 +282,82 @@ impl C13 {
                     Caught::Panic(m) => ctx.out.violations.push(Violation::new("panic", format!("serde deserialise: {m}")).with("where", "serde_de").with("msg", super::c18::norm_msg(&m))),
                     Caught::Budget => {}
                 }
+            }
+            Form::FileMulti => {
+                let scratch = crate::cli::Scratch::new(&env.scratch, "c13m");
+                let dir = scratch.dir.clone();
+                // (name, spec) in write order
+                let mut writes: Vec<(&str, &GSpec)> = vec![(sc.first_name.as_str(), &sc.g)];
+                writes.extend(sc.more.iter().map(|(g, n)| (n.as_str(), g)));
+                let mut last: std::collections::BTreeMap<&str, &GSpec> = Default::default();
+                ctx.out.probe("file_multi_history");
+                for (i, (name, spec)) in writes.iter().enumerate() {
+                    let path = dir.join(name);
+                    let core = Core::new(dec, 1);
+                    let gi: G = spec.build();
+                    let p2 = path.clone();
+                    let (res, core) = with_sim(core, move || quizx::json::write_graph(&gi, &p2));
+                    dec = core.dec;
+                    ctx.out.steps += 1;
+                    match res {
+                        Caught::Ok(Ok(())) => {
+                            if last.insert(name, spec).is_some() {
+                                ctx.out.probe("file_multi_name_rewritten");
+                            }
+                        }
+                        Caught::Ok(Err(e)) => {
+                            ctx.out.violations.push(Violation::new("write_failed_without_fault", format!("write #{i} of a history (write_graph to '{name}' after {:?}) failed with no fault injected: {e}", writes[..i].iter().map(|w| w.0).collect::<Vec<_>>())).with("form", "file_multi"));
+                            return dec;
+                        }
+                        Caught::Panic(m) => {
+                            ctx.out.violations.push(Violation::new("panic", format!("write_graph to '{name}' (write #{i} of a history): {m}")).with("where", "write_graph").with("msg", super::c18::norm_msg(&m)));
+                            return dec;
+                        }
+                        Caught::Budget => return dec,
+                    }
+                }
+                // every name holds the diagram written to it last
+                for (name, spec) in last {
+                    let path = dir.join(name);
+                    let core = Core::new(dec, 1);
+                    let hb = sc.decode_hash_backend;
+                    let p2 = path.clone();
+                    let (res, core) = with_sim(core, move || {
+                        if !p2.exists() {
+                            return Err("the file is gone".to_string());
+                        }
+                        if hb {
+                            quizx::json::read_graph::<quizx::hash_graph::Graph>(&p2).map(|g| Dg::of(&g)).map_err(|e| e.to_string())
+                        } else {
+                            quizx::json::read_graph::<quizx::vec_graph::Graph>(&p2).map(|g| Dg::of(&g)).map_err(|e| e.to_string())
+                        }
+                    });
+                    dec = core.dec;
+                    ctx.out.steps += 1;
+                    let order: Vec<&str> = writes.iter().map(|w| w.0).collect();
+                    match res {
+                        Caught::Ok(Ok(d2)) => {
+                            let sub_sc = Sc { g: spec.clone(), more: vec![], ..sc.clone() };
+                            let mut sub = Ctx { sc: &sub_sc, orig: spec.to_dg(), out: &mut *ctx.out, tensor: None };
+                            let before = sub.out.violations.len();
+                            sub.judge_dg(d2, &format!("file_multi.{name}"));
+                            for v in sub.out.violations[before..].iter_mut() {
+                                v.detail = format!("after the writes {:?}: {}", order, v.detail);
+                            }
+                        }
+                        Caught::Ok(Err(e)) => ctx.out.violations.push(
+                            Violation::new("written_file_lost_or_damaged_by_later_write", format!("after the successful writes {:?}, '{name}' cannot be read back: {e}", order)).with("form", "file_multi"),
+                        ),
+                        Caught::Panic(m) => ctx.out.violations.push(
+                            Violation::new("written_file_lost_or_damaged_by_later_write", format!("after the successful writes {:?}, read_graph('{name}') panics: {m}", order)).with("form", "file_multi"),
+                        ),
+                        Caught::Budget => {}
+                    }
+                    if !ctx.out.violations.is_empty() {
+                        break;
+                    }
+                }
+                drop(scratch);
             }
             Form::File(fault) => {
                 let scratch = crate::cli::Scratch::new(&env.scratch, "c13");
@@ -656,6 +745,7 @@ impl Property for C13 {
             SubBatch { name: "file", quick: 3_000, thorough: 60_000 },
             SubBatch { name: "file_torn", quick: 160, thorough: 4_000 },
             SubBatch { name: "file_sys", quick: 1_500, thorough: 30_000 },
+            SubBatch { name: "file_multi", quick: 3_000, thorough: 60_000 },
         ]
     }
     fn expected_probes(&self) -> Vec<&'static str> {
@@ -684,6 +774,7 @@ impl Property for C13 {
                 4 => Fault::OutNoDir,
                 _ => Fault::OutIsDir,
             }),
+            "file_multi" => Form::FileMulti,
             "file_sys" => {
                 let hard = d.coin("sys.hard", 1, 3);
                 let plan = crate::cli::gen_sysplan(d, hard);
@@ -691,7 +782,17 @@ impl Property for C13 {
             }
             _ => Form::File(Fault::OutEfbig(d.choose("efbig", if large { 30_000 } else { 3000 }) as u64)),
         };
-        Sc { g, hash_backend: d.coin("hb", 1, 2), decode_hash_backend: d.coin("dhb", 1, 2), form, pre: d.choose("pre", 3) as u8 }
+        let (more, first_name) = if sub == "file_multi" {
+            let k = 1 + d.choose("fm.k", 4);
+            // a small pool of names per run, so that stems collide and names repeat
+            let pool: Vec<&str> = (0..3 + d.choose("fm.pool", 3)).map(|_| *d.pick("fm.name", NAMES)).collect();
+            let first = d.pick("fm.first", &pool).to_string();
+            let more = (0..k).map(|_| (gen::json_diagram_sized(d, false), d.pick("fm.n", &pool).to_string())).collect();
+            (more, first)
+        } else {
+            (vec![], String::new())
+        };
+        Sc { g, hash_backend: d.coin("hb", 1, 2), decode_hash_backend: d.coin("dhb", 1, 2), form, pre: d.choose("pre", 3) as u8, more, first_name }
     }
 
     fn execute(&self, sc: &Sc, _sub: &str, exec: Decider, env: &Env) -> RunOut {
@@ -750,6 +851,11 @@ impl Property for C13 {
     fn shrink(&self, sc: &Sc) -> Vec<Sc> {
         let mut c = vec![];
         let g = &sc.g;
+        for i in 0..sc.more.len() {
+            let mut m = sc.more.clone();
+            m.remove(i);
+            c.push(Sc { more: m, ..sc.clone() });
+        }
         match &sc.form {
             Form::File(Fault::SysWrite(p)) => {
                 for q in crate::cli::shrink_sysplan(p) {
